@@ -236,7 +236,7 @@ def run(ctx):
     if not can_run:
         common.broken_without_input(ctx, "build", ctx.notes[-1] if ctx.notes else "")
         return
-    k = 5 if ctx.thorough() else 1
+    k = ctx.scale(5)
     rng = ctx.rng
     progs = []
     for _ in range(120 * k):
